@@ -55,6 +55,8 @@ pub struct CoeServer {
     pub mutations: VecDeque<Mutation>,
     /// Keep answering segment requests with "more follows" forever.
     pub endless_segments: bool,
+    /// In endless mode, once the object's data is used up the further segments carry no data at all.
+    pub endless_segments_empty: bool,
     /// Keep answering SDO info with "incomplete" forever.
     pub endless_fragments: bool,
     /// Payload bytes of each further fragment in endless mode (0 = empty fragments).
@@ -91,6 +93,7 @@ impl CoeServer {
             answer_other_object: false,
             mutations: VecDeque::new(),
             endless_segments: false,
+            endless_segments_empty: false,
             endless_fragments: false,
             endless_payload: 2,
             endless_active: false,
@@ -176,7 +179,7 @@ impl CoeServer {
         b.extend_from_slice(&chunk);
         b.extend(std::iter::repeat(0).take(pad));
         if !last {
-            if rest.is_empty() {
+            if rest.is_empty() && !self.endless_segments_empty {
                 // endless mode: keep producing data
                 rest = vec![0xEE; seg.max(1)];
             }
